@@ -259,6 +259,12 @@ def run(ctx, rep):
             k_ += 1
             rep.ob("C08.target-once", o["instance"], o["status"], o["detail"], o["where"], key=o["key"].replace("C15.once", "C08.target-once", 1), fn=o.get("fn"))
     rep.floor("C08.target-once compound-assignment shapes", k_, 2)
+    # `x.m(args)` keeps the receiver in a register while the arguments are compiled; `ld_self` reads it back.  The method runs on x only if nothing else
+    # is given that register meanwhile: every register the generators write was reserved from the counter (C07's walk of the store_fast emissions)
+    from props import C07 as _c07
+    tmp7 = _Report("C07", rep.tier)
+    _c07.fresh_cell_for_new_names_only(F_all(ctx), tmp7)
+    _c07.written_registers_are_reserved(F_all(ctx), rep, rule="C08.receiver-register")
     methods_made_before_fields(ctx, rep)
     # bin_op dispatches `is` to runtime_addr_check
     bo = need(F, "bytecode::instruction::implementations::bin_op")
